@@ -548,3 +548,26 @@ def schema_replay(n_estimands=2, levels=(0.9, 0.7)):
         out["exc"] = f"{type(e).__name__}: {e}"
     out["ok"] = out["exc"] is None and not out["problems"]
     return out
+
+
+def conformance_get_units(payload):
+    """real get_units on a concrete election described by the conformance driver (outlier model stubbed by flags)"""
+    from elexmodel.handlers.data.CombinedData import CombinedDataHandler
+
+    units, params = payload["units"], payload["params"]
+    rows = [{"postal_code": u["postal"], "geographic_unit_fips": u["id"], "percent_expected_vote": u["pev"], "baseline_weights": float(u["bw"]), "turnout_factor": u["tf"], "results_weights": 1.0, "results_turnout": float(u["res"]), "last_election_results_turnout": 5.0} for u in units if u["inData"]]
+    feed = [{"postal_code": u["postal"], "geographic_unit_fips": u["id"], "percent_expected_vote": u["pev"], "results_turnout": float(u["res"])} for u in units if u["inFeed"]]
+    h = CombinedDataHandler.__new__(CombinedDataHandler)
+    h.estimands = ["turnout"]
+    h.data = pd.DataFrame(rows, columns=["postal_code", "geographic_unit_fips", "percent_expected_vote", "baseline_weights", "turnout_factor", "results_weights", "results_turnout", "last_election_results_turnout"])
+    h.current_data = pd.DataFrame(feed, columns=["postal_code", "geographic_unit_fips", "percent_expected_vote", "results_turnout"])
+    h.preprocessed_data = h.data
+    h.geographic_unit_type = "county"
+    h.n_minimum_for_outlier_detection_model = 10**9  # the outlier model is exercised separately (stub): keep it off here
+    rep, non, third = h.get_units(params["thr"], params["lo"], params["hi"], params["ublk"], params["pblk"], False, False, 2.0, ["postal_code", "unit"])
+    where = {}
+    for k, f in (("reporting", rep), ("nonreporting", non), ("third", third)):
+        for i in f.geographic_unit_fips:
+            where.setdefault(i, []).append(k)
+    cats = {i: c for i, c in zip(third.geographic_unit_fips, third.unit_category)}
+    return {"where": where, "categories": cats}
